@@ -749,6 +749,9 @@ func main() {
 				c.MI = 1 + g.r2.Intn(len(ds)+len(fs)+2)
 				c.EOFS = false // with fatal errors AND a limit, which of the two stops the scan first depends on the listing order
 			}
+			if i%6 == 5 { // the glue variants (refused configurations, no extractor, no stats collector, no ReadDirFile) are order independent too
+				g.variant(c)
+			}
 			if i%5 == 4 { // directory handles without ReadDirFile (the listing is preloaded by fsys.ReadDir): order independence holds there too
 				c.NRD = 1
 			}
